@@ -65,6 +65,10 @@ def exec_c10(cfg, devs):
                                 if f.__name__.startswith('_') or f.__name__ in ('send_packet', 'close_link')])
     ex = cfh.Exec(devs, dev, time_limit=8.0, reply_menu=REPLY_MENU, needs_resending=cfg['resend'], policy=cfg.get('policy'))
     ex.env.on_tx = lambda idx, h, data, st: ex.log('tx', idx, h, tuple(data), st, cfh._thread_name())
+    # "received" = taken from the link by the library; when the same thread comes back for the next packet it has had its
+    # chance to match this one (whether or not the matcher ran)
+    ex.env.on_rx_pk = lambda idx, h, data: ex.log('taken', (h,) + tuple(data), cfh._thread_name())
+    ex.env.on_rx_wait = lambda idx: ex.log('rx_wait', cfh._thread_name())
     info = {'sessions': []}
 
     def main():
@@ -92,8 +96,7 @@ def exec_c10(cfg, devs):
                 finally:
                     ex.log('processed', d, cfh._thread_name())
             cbs[idx[0]] = windowed
-        else:
-            cf.packet_received.add_callback(lambda pk: ex.log('processed', (pk.header,) + tuple(pk.data)))
+        # (if the matcher cannot be found the window ends when the dispatcher comes back for the next packet)
         info['cf'] = cf
 
         def issue(name):
@@ -109,6 +112,16 @@ def exec_c10(cfg, devs):
 
         ex.log('open', 0)
         cf.open_link('sim://0')
+        if cfg.get('poll'):
+            # an inline poll: the handler of the first reply sends the next request (same reply pattern) from the
+            # dispatcher thread
+            polled = []
+
+            def on_reply(pk):
+                if not polled:
+                    polled.append(1)
+                    issue(cfg['poll'])
+            cf.add_port_callback(PORT, on_reply)
         for i, name in enumerate(cfg['reqs']):
             if i and cfg.get('gap'):
                 s.sleep(cfg['gap'], 'user.gap')
@@ -193,6 +206,7 @@ def _judge(p, cfg, devs, ex, info):
     issued = {}           # (name, link) -> position
     ntx = {}
     windows = []          # [begin position, end position or None, packet] of the library's pattern matcher
+    untreated = {}        # dispatcher thread -> packet it took from the link and has not run the matcher on (yet)
     maybe = set()         # requests registered while a packet they match was being matched: not judged
     for pos, e in enumerate(ev):
         k = e[1]
@@ -213,32 +227,49 @@ def _judge(p, cfg, devs, ex, info):
         elif k == 'issue':
             name, link = e[2], e[3]
             issued[(name, link)] = pos
-        elif k == 'proc_begin':
+        elif k == 'taken':
+            # a packet is received when the library takes it from the link; the window in which it is matched against the
+            # pending patterns runs from there to the end of the library's matcher (or, if the matcher is never run on it,
+            # to the moment the same thread comes back for the next packet)
             if (e[2][0] & 0xf3) == (HDR & 0xf3):
-                windows.append([pos, None, e[2]])
-        elif k == 'processed':
-            d = e[2]
+                untreated[e[3]] = e[2]
+                windows.append({'begin': pos, 'end': None, 'data': e[2], 'thread': e[3], 'dirty': False, 'after': set()})
+        elif k == 'processed' or (k == 'rx_wait' and e[2] in untreated):
+            if k == 'rx_wait':
+                d = untreated.pop(e[2])
+                th_w = e[2]
+            else:
+                d = e[2]
+                th_w = e[3] if len(e) > 3 else None
+                untreated.pop(th_w, None)
             if (d[0] & 0xf3) != (HDR & 0xf3):
                 continue
-            dirty = False
-            for w in windows:
-                if w[1] is None and w[2] == d:
-                    w[1] = pos
-                    dirty = len(w) > 3
-                    break
+            w = next((w for w in windows if w['end'] is None and w['data'] == d and th_w in (None, w['thread'])), None)
+            if w is None:
+                w = {'begin': pos, 'end': None, 'data': d, 'thread': th_w, 'dirty': False, 'after': set()}
+            w['end'] = pos
             cands = [pat for pat in pending if d[:len(pat)] == pat]
-            if dirty:
-                # a request that could match this packet was being registered while the packet was being matched: the
-                # library may or may not have counted it in; nothing is demanded of the requests this packet could answer
+            if w['dirty']:
+                # a request that could match this packet was being registered by another thread while the packet was being
+                # matched: the library may or may not have counted it in; nothing is demanded of the requests it could answer
                 for pat in cands:
                     for q in pending[pat]:
                         maybe.add((q['name'], q['link']))
                     del pending[pat]
             elif cands:
-                lm = max(cands, key=len)
-                for q in pending[lm]:       # every request waiting for exactly this pattern has its matching packet now
-                    answered_at[(q['name'], q['link'])] = pos
-                del pending[lm]
+                # requests sent by the receiving thread itself after it had taken this packet (from a handler of the very
+                # packet) come after it: this packet cannot be their answer
+                live = [pat for pat in cands if any((q['name'], q['link']) not in w['after'] for q in pending[pat])]
+                if live:
+                    lm = max(live, key=len)
+                    keep = [q for q in pending[lm] if (q['name'], q['link']) in w['after']]
+                    for q in pending[lm]:
+                        if (q['name'], q['link']) not in w['after']:
+                            answered_at[(q['name'], q['link'])] = pos
+                    if keep:
+                        pending[lm] = keep
+                    else:
+                        del pending[lm]
         elif k == 'tx' and e[3] == HDR:
             t, link, data, st, th = e[0], e[2], e[4], e[5], e[6]
             name = [n for n, (dd, ex_) in REQS.items() if tuple(dd) == tuple(data)]
@@ -268,10 +299,13 @@ def _judge(p, cfg, devs, ex, info):
                     # a matching packet whose matching overlaps that span may or may not have found it
                     began = last_lockacq.get(th, -1)
                     for w in windows:
-                        if w[2][:len(pat)] == pat and w[0] < pos and (w[1] is None or w[1] > began):
-                            maybe.add(key)
-                            if w[1] is None and len(w) == 3:
-                                w.append('dirty')
+                        if w['data'][:len(pat)] == pat and w['begin'] < pos and (w['end'] is None or w['end'] > began):
+                            if w['thread'] == th and w['begin'] < began:
+                                w['after'].add(key)         # sent by the receiving thread after it took the packet
+                            else:
+                                maybe.add(key)
+                                if w['end'] is None:
+                                    w['dirty'] = True
                     if key not in maybe:
                         pending.setdefault(pat, []).append({'name': name, 'link': link, 't0': t})
                 continue
@@ -372,6 +406,7 @@ def configs(quick):
         _cfg('same:ae:gap', 'ae', gap=0.1),
         _cfg('reopen:same-pattern:tie', 'a', close_at=0.4, reopen_after=0.0, reqs2='e'),
         _cfg('reopen:same-pattern', 'a', close_at=0.3, reopen_after=0.05, reqs2='e'),
+        _cfg('poll:a->e', 'a', poll='e'),
     ]
     return out
 
